@@ -103,6 +103,10 @@ pub enum Root {
     /// Star, then X writes and deletes a key, collects the tombstone after the key grace period and
     /// gossips with A again: A's copy of the live member X was reset and its max version went DOWN
     StarXResetAtA,
+    /// Star, and X has had two lives at A: silent until A removed it, back with higher heartbeats
+    /// (re-created, live again, A told B about the new heartbeat), silent again until A removed it a
+    /// second time; B never evaluated and still advertises X with the heartbeat of the second life
+    StarRemovedTwiceAtA,
 }
 
 impl Root {
@@ -111,6 +115,12 @@ impl Root {
             Root::Crash | Root::Partition | Root::Star => vec![],
             Root::StarBLiveXDead => vec![Act::Hs(1, 0), Act::Tick5, Act::Hs(1, 0), Act::Hs(1, 0), Act::Eval(0)],
             Root::StarXResetAtA => vec![Act::SetT(2), Act::Hs(2, 0), Act::Eval(0), Act::DelT(2), Act::Tick11, Act::GcKeys(2), Act::Hs(2, 0)],
+            Root::StarRemovedTwiceAtA => vec![
+                Act::Tick11, Act::Eval(0), Act::Tick11, Act::Tick11, Act::Eval(0), // first removal
+                Act::Hs(2, 0), Act::Hs(2, 0), Act::Hs(2, 0), Act::Eval(0), // second life
+                Act::Hs(0, 1), // B learns the second life's heartbeat
+                Act::Tick11, Act::Eval(0), Act::Tick11, Act::Tick11, Act::Eval(0), // second removal
+            ],
             Root::CrashQuarantined => vec![Act::Tick5, Act::Eval(0), Act::Eval(1), Act::Tick11],
             Root::CrashRemovedAtA => vec![Act::Tick5, Act::Eval(0), Act::Eval(1), Act::Tick11, Act::Tick11, Act::Eval(0)],
             Root::CrashRemovedAtAKeepingB => vec![Act::Hs(1, 0), Act::Tick5, Act::Hs(1, 0), Act::Hs(1, 0), Act::Eval(0), Act::Tick11, Act::Hs(1, 0), Act::Hs(1, 0), Act::Tick11, Act::Hs(1, 0), Act::Hs(1, 0), Act::Eval(0)],
@@ -127,6 +137,7 @@ impl Root {
             "Star" => Root::Star,
             "StarBLiveXDead" => Root::StarBLiveXDead,
             "StarXResetAtA" => Root::StarXResetAtA,
+            "StarRemovedTwiceAtA" => Root::StarRemovedTwiceAtA,
             _ => Root::Crash,
         }
     }
@@ -546,7 +557,7 @@ pub fn alphabet(root: Root) -> Vec<Act> {
         v.push(Act::Hs(2, 1));
         v.push(Act::Hs(1, 2));
     }
-    if root == Root::Star || root == Root::StarBLiveXDead || root == Root::StarXResetAtA {
+    if root == Root::Star || root == Root::StarBLiveXDead || root == Root::StarXResetAtA || root == Root::StarRemovedTwiceAtA {
         v.push(Act::Hs(2, 0));
         v.push(Act::Hs(0, 2));
     }
@@ -572,7 +583,7 @@ pub fn run_sequence(root: Root, predicate: bool, props: &[&'static str], seq: &[
 pub fn explore(root: Root, predicate: bool, props: &[&'static str], depth: usize, deadline: Instant) -> Part {
     let mut part = Part::new(&format!("membership/{:?}{}{}(depth<={depth})", root, if predicate { "+predicate" } else { "" }, if props.contains(&"NOHOLD") { "+no-receiver-held" } else { "" }));
     let alpha = alphabet(root);
-    part.rule = format!("three real nodes A, B, X (phi 2, intervals 1s/2s, dead-node grace 20s); deterministic warm-up of 4 gossip rounds makes everyone live everywhere, X's last write reaches B only; then {}; every sequence of length <= {depth} over {{tick 5s, tick 11s, handshake A->B, B->A, evaluate A, evaluate B, replay one of three SYNs captured during warm-up to A, B writes READY=false/true{}}} is executed from the root with the oracles on every step (adjacent actions on disjoint nodes are explored in one order only); non-trivial = sequences in which a member was quarantined, removed or re-advertised", match root { Root::Crash => "X crashes", Root::Partition => "X stays up but only talks to B", Root::CrashQuarantined => "X crashes and (tick 5s, A and B evaluate, tick 11s) X is quarantined at both survivors", Root::CrashRemovedAtA => "X crashes and (tick 5s, A and B evaluate, tick 11s, tick 11s, A evaluates) A has removed X while B still advertises it", Root::CrashRemovedAtAKeepingB => "X crashes; A and B keep gossiping; after 27s A has removed X while B, which never evaluated, still advertises it", Root::PartitionRemovedAtA => "X stays up but only talks to B, and after 27s without any contact A has removed X (and B) while X kept heartbeating with B", Root::Star => "X stays up but only talks to A", Root::StarBLiveXDead => "X stays up but only talks to A, and (B->A, tick 5s, B->A twice, A evaluates) A holds B live and X dead", Root::StarXResetAtA => "X stays up but only talks to A; X set and deleted a key, collected the tombstone 11s later and gossiped with A, whose copy of X was reset to a LOWER max version" }, if root == Root::Partition || root == Root::PartitionRemovedAtA { ", handshake X->B, B->X" } else if root == Root::Star || root == Root::StarBLiveXDead || root == Root::StarXResetAtA { ", handshake X->A, A->X" } else { "" });
+    part.rule = format!("three real nodes A, B, X (phi 2, intervals 1s/2s, dead-node grace 20s); deterministic warm-up of 4 gossip rounds makes everyone live everywhere, X's last write reaches B only; then {}; every sequence of length <= {depth} over {{tick 5s, tick 11s, handshake A->B, B->A, evaluate A, evaluate B, replay one of three SYNs captured during warm-up to A, B writes READY=false/true{}}} is executed from the root with the oracles on every step (adjacent actions on disjoint nodes are explored in one order only); non-trivial = sequences in which a member was quarantined, removed or re-advertised", match root { Root::Crash => "X crashes", Root::Partition => "X stays up but only talks to B", Root::CrashQuarantined => "X crashes and (tick 5s, A and B evaluate, tick 11s) X is quarantined at both survivors", Root::CrashRemovedAtA => "X crashes and (tick 5s, A and B evaluate, tick 11s, tick 11s, A evaluates) A has removed X while B still advertises it", Root::CrashRemovedAtAKeepingB => "X crashes; A and B keep gossiping; after 27s A has removed X while B, which never evaluated, still advertises it", Root::PartitionRemovedAtA => "X stays up but only talks to B, and after 27s without any contact A has removed X (and B) while X kept heartbeating with B", Root::Star => "X stays up but only talks to A", Root::StarBLiveXDead => "X stays up but only talks to A, and (B->A, tick 5s, B->A twice, A evaluates) A holds B live and X dead", Root::StarRemovedTwiceAtA => "X only talks to A and has had two lives there: removed by A after 22s of silence, back with higher heartbeats (re-created, A told B), removed a second time; B never evaluated and still advertises X with the second life's heartbeat", Root::StarXResetAtA => "X stays up but only talks to A; X set and deleted a key, collected the tombstone 11s later and gossiped with A, whose copy of X was reset to a LOWER max version" }, if root == Root::Partition || root == Root::PartitionRemovedAtA { ", handshake X->B, B->X" } else if root == Root::Star || root == Root::StarBLiveXDead || root == Root::StarXResetAtA || root == Root::StarRemovedTwiceAtA { ", handshake X->A, A->X" } else { "" });
     part.bounds = json!({"alphabet": alpha.iter().map(|a| a.json()).collect::<Vec<_>>(), "depth": depth, "grace_ms": GRACE_MS});
     let capped = std::sync::atomic::AtomicBool::new(false);
     let prefixes: Vec<Vec<Act>> = alpha.iter().flat_map(|a| alpha.iter().map(move |b| vec![*a, *b])).collect();
@@ -761,7 +772,7 @@ pub fn run(property: &'static str, tier: Tier, started: Instant) -> Vec<Part> {
     let mut parts = vec![];
     let mut plan: Vec<(Root, bool, usize)> = match property {
         "C13" => vec![(Root::Crash, false, depth), (Root::Crash, true, depth), (Root::Partition, true, depth), (Root::Partition, false, depth), (Root::CrashRemovedAtA, true, depth2), (Root::Star, false, depth), (Root::StarBLiveXDead, false, depth2), (Root::StarBLiveXDead, true, depth2), (Root::StarXResetAtA, false, depth2)],
-        _ => vec![(Root::Crash, false, depth), (Root::Partition, false, depth), (Root::CrashQuarantined, false, depth2), (Root::CrashRemovedAtA, false, depth2), (Root::CrashRemovedAtAKeepingB, false, depth2 - 1), (Root::PartitionRemovedAtA, false, depth2 - 1)],
+        _ => vec![(Root::Crash, false, depth), (Root::Partition, false, depth), (Root::CrashQuarantined, false, depth2), (Root::CrashRemovedAtA, false, depth2), (Root::CrashRemovedAtAKeepingB, false, depth2 - 1), (Root::PartitionRemovedAtA, false, depth2 - 1), (Root::StarRemovedTwiceAtA, false, depth2 - 2)],
     };
     if tier == Tier::Quick && property == "C13" {
         plan = vec![(Root::Crash, false, depth), (Root::Crash, true, depth), (Root::Partition, true, depth), (Root::CrashRemovedAtA, true, depth2 - 1), (Root::StarBLiveXDead, false, depth2), (Root::StarBLiveXDead, true, depth2 - 1), (Root::StarXResetAtA, false, depth2 - 1)];
